@@ -36,6 +36,21 @@ def wrap(f, kind):
     return f
 
 
+class _Unprintable(Exception):
+    def __str__(self):
+        raise RuntimeError("this exception cannot be printed")
+
+    __repr__ = __str__
+
+
+# what a handler may raise: with a message, without any argument, with several, with a non-string, one that cannot even
+# be formatted
+SCRIPTED = [
+    lambda: ValueError("scripted"), lambda: ValueError(), lambda: KeyError(), lambda: RuntimeError(1, 2),
+    lambda: Exception(None), lambda: _Unprintable(), lambda: IndexError(),
+]
+
+
 def trigger_case(ctx, rng):
     from pynetdicom import AE, evt
     from pynetdicom.association import Association
@@ -50,7 +65,7 @@ def trigger_case(ctx, rng):
         def h(event):
             calls.append(i)
             if o == "raise":
-                raise ValueError("scripted")
+                raise SCRIPTED[(i + len(outcomes)) % len(SCRIPTED)]()
             return o
 
         return h
